@@ -127,14 +127,15 @@ def run(model, rep):
             def thunk():
                 tp = mk()
                 box.append(tp)
-                return I.call_method(TP, meth, tp, [v])
+                I.call_method(TP, meth, tp, [v])
+                return I.call_method(TP, '__str__', tp, [])       # the emitted text, read the way the printers read it
             res = I.explore(thunk)
             if len(res) != 1 or res[0][0][0] not in ('return', 'raise'):
                 raise AnalysisError('UNDECIDED: TokenPrinter.%s(%r) -> %s' % (meth, v, [(r[0], r[2][:2]) for r in res][:2]))
             if res[0][0][0] == 'raise':
                 bad.append('%r: raises %s' % (v, res[0][0][1]))
                 continue
-            code = box[-1].attrs.get('_code')
+            code = res[0][0][1]
             if not isinstance(code, str):
                 raise AnalysisError('UNDECIDED: TokenPrinter.%s(%r) leaves code %r' % (meth, v, code))
             try:
